@@ -182,9 +182,13 @@ def canon(e, rename, depth=0, rewrite=None, pname=None):
         return "(*%s).%s" % (c(e[1]), path)
     if k == "binop":
         a, b = c(e[2]), c(e[3])
-        if e[1] in ("Add", "Mul", "BitAnd", "BitOr", "BitXor", "Eq", "Ne", "AddUnchecked", "MulUnchecked") and b < a:
+        op = e[1]
+        if op in ("Add", "Mul", "BitAnd", "BitOr", "BitXor", "Eq", "Ne", "AddUnchecked", "MulUnchecked") and b < a:
             a, b = b, a  # commutative: operand order is not part of the skeleton
-        return "%s(%s, %s)" % (e[1], a, b)
+        if op in ("Gt", "Ge"):
+            # `a > b` is `b < a`: the orientation of a comparison is not part of the skeleton
+            op, a, b = {"Gt": "Lt", "Ge": "Le"}[op], b, a
+        return "%s(%s, %s)" % (op, a, b)
     if k == "unop":
         return "%s(%s)" % (e[1], c(e[2]))
     if k in ("call", "pcall"):
@@ -227,23 +231,93 @@ def canon(e, rename, depth=0, rewrite=None, pname=None):
     return k
 
 
+_NEG = {"Lt": "Ge", "Le": "Gt", "Gt": "Le", "Ge": "Lt", "Eq": "Ne", "Ne": "Eq"}
+_FLIP = {"Lt": "Gt", "Le": "Ge", "Gt": "Lt", "Ge": "Le", "Eq": "Eq", "Ne": "Ne"}
+_ID = lambda s: s
+
+
+def _positive_form(d, rename=_ID):
+    """(d', swapped): a boolean discriminant in canonical positive form and whether reaching it exchanged the two
+    branches: `!x` becomes x; the operands of a comparison are put in the textual order of their canonical
+    rendering; then `a != b`, `a >= b`, `a > b` become `a == b`, `a < b`, `a <= b`. So `a > b`, `b < a`,
+    `!(a <= b)` and `!(b >= a)` all have one form and one branch order."""
+    swapped = False
+    while True:
+        d = mir.strip_casts(d)
+        if isinstance(d, tuple) and d and d[0] == "unop" and d[1] == "Not":
+            d, swapped = d[2], not swapped
+            continue
+        if isinstance(d, tuple) and d and d[0] == "binop" and d[1] in _NEG:
+            op, a, b = d[1], d[2], d[3]
+            if canon(b, rename, 1) < canon(a, rename, 1):
+                op, a, b = _FLIP[op], b, a
+            if op in ("Ge", "Gt", "Ne"):
+                op, swapped = _NEG[op], not swapped
+            return ("binop", op, a, b), swapped
+        return d, swapped
+
+
+def positive_branches(f, x, rename=_ID):
+    """(positive-form discriminant, block taken when it holds, block taken when it does not) of a two-way boolean
+    switch, or None"""
+    t = f.term(x)
+    if t["k"] != "switch" or f._switch_const(t, x) is not None or len(t["targets"]) != 1:
+        return None
+    n = len(f.blocks[x]["stmts"])
+    d = f.deep_simplify(f.operand_expr(t["discr"], x, n))
+    if not (isinstance(mir.strip_casts(d), tuple) and mir.strip_casts(d)[0] in ("binop", "unop")):
+        return None
+    v = int(t["targets"][0][0])
+    false_b, true_b = (t["targets"][0][1], t["otherwise"]) if v == 0 else (t["otherwise"], t["targets"][0][1])
+    pd, swapped = _positive_form(d, rename)
+    if swapped:
+        true_b, false_b = false_b, true_b
+    return pd, true_b, false_b
+
+
+def canonical_order(f, rename=_ID):
+    """blocks of the normal CFG in reverse postorder, where the two successors of a boolean test are visited
+    in the order (canonical positive condition holds, does not hold) whatever the spelling of the test, and code
+    after a join comes after both branches. Returns (order, {block: positive-form discriminant})."""
+    key = ("canonical_order", id(rename))
+    if key in f._cache:
+        return f._cache[key]
+    forms = {}
+
+    def succ(x):
+        pb = positive_branches(f, x, rename)
+        if pb is not None:
+            forms[x] = pb[0]
+            if pb[1] != pb[2]:
+                return [pb[1], pb[2]]
+        return [y for y, kind, _ in f.succ_edges(x) if kind == "normal"]
+
+    post, seen = [], set()
+    if f.blocks:
+        stack = [(0, iter(reversed(succ(0))))]
+        seen.add(0)
+        while stack:
+            x, it = stack[-1]
+            adv = False
+            for y in it:
+                if y not in seen:
+                    seen.add(y)
+                    stack.append((y, iter(reversed(succ(y)))))
+                    adv = True
+                    break
+            if not adv:
+                post.append(x)
+                stack.pop()
+    order = list(reversed(post))
+    f._cache[key] = (order, forms)
+    return f._cache[key]
+
+
 def events(f, rename=lambda s: s, significant=None, rewrite=None, pname=None, guards=False):
     """ordered list of (kind, text): significant calls in DFS order of the normal CFG, stores to
     memory, and the returned value(s)"""
     out = []
-    order = []
-    seen = set()
-    stack = [0] if f.blocks else []
-    while stack:
-        x = stack.pop()
-        if x in seen:
-            continue
-        seen.add(x)
-        order.append(x)
-        succ = [s for s, kind, _ in f.succ_edges(x) if kind == "normal"]
-        for s in reversed(succ):
-            if s not in seen:
-                stack.append(s)
+    order, forms = canonical_order(f, rename)
     for b in order:
         blk = f.blocks[b]
         for i, st in enumerate(blk["stmts"]):
@@ -294,7 +368,10 @@ def events(f, rename=lambda s: s, significant=None, rewrite=None, pname=None, gu
                 out.append(("call", "%s(%s)" % (name, ", ".join(args))))
         elif t["k"] == "switch" and guards and f._switch_const(t, b) is None:
             n = len(blk["stmts"])
-            out.append(("guard", canon(f.deep_simplify(f.operand_expr(t["discr"], b, n)), rename, 1, rewrite, pname)))
+            d = forms.get(b)
+            if d is None:
+                d = f.deep_simplify(f.operand_expr(t["discr"], b, n))
+            out.append(("guard", canon(d, rename, 1, rewrite, pname)))
         elif t["k"] == "return":
             pass  # return values are recorded where `_0` is assigned
         elif t["k"] == "yield":
